@@ -1,5 +1,6 @@
 import AsyncVerif.Impl.Aggregations
 import AsyncVerif.Proofs.Release
+import AsyncVerif.Proofs.Chain
 /-!
 # C04 — owned async iterators are released when a tool finishes, fails or is closed
 
@@ -106,6 +107,39 @@ theorem C04_compress (d sel fuel : Nat) (w : World)
   rw [hw]
   apply closeSrc_preserves
   exact scopedIter_released sel _ w hb
+
+/-- `chain` run to exhaustion: every input has been released (each in its own scope, never un-released later) -/
+theorem C04_chain_exhausted (srcs : List Nat) (fuel : Nat) (w : World)
+    (h : (Impl.chain srcs fuel w).1 = .ok ()) :
+    ∀ s ∈ srcs, Released ((Impl.chain srcs fuel w).2.srcs s) := by
+  have hc : Impl.chain srcs fuel w = Impl.chainIter srcs fuel w := by
+    unfold Impl.chain at h ⊢
+    rcases hi : Impl.chainIter srcs fuel w with ⟨r, w1⟩
+    rw [hi] at h
+    cases r with
+    | ok u => rfl
+    | error e => cases e <;> first | rfl | (simp at h; split at h <;> simp at h)
+  rw [hc] at h ⊢
+  exact chainIter_released fuel srcs w h
+
+/-- `chain` closed by its consumer (`chain.aclose()`, started or not at that input): every input is released,
+    also those never reached -/
+theorem C04_chain_closed (srcs : List Nat) (fuel : Nat) (w : World)
+    (h : (Impl.chain srcs fuel w).1 = .error .genExit) :
+    ∀ s ∈ srcs, Released ((Impl.chain srcs fuel w).2.srcs s) := by
+  unfold Impl.chain at h ⊢
+  rcases hi : Impl.chainIter srcs fuel w with ⟨r, w1⟩
+  rw [hi] at h
+  cases r with
+  | ok u => simp at h
+  | error e =>
+    cases e <;> try (simp at h)
+    intro s hs
+    have := closeOwned_releases srcs w1 s hs
+    simp only at h ⊢
+    rcases ho : Impl.closeOwned srcs w1 with ⟨r2, w2⟩
+    rw [ho] at this h
+    cases r2 <;> simpa using this
 
 theorem C04_merge (fn : Option Nat) (reverse : Bool) (srcs : List Nat) (fuel : Nat) (w : World)
     (h : (Impl.merge fn reverse srcs fuel w).1 ≠ .error .outOfFuel) :
